@@ -54,6 +54,21 @@ Proof. exact dealloc_wide_flags_leaves_an_operand. Qed.
 
 Print Assumptions C03_direct_cleanup_consumes_flattened_operands.
 Print Assumptions C03_direct_cleanup_wide_flags_refuted.
+(** The public entry points deallocate_lists_in_types / deallocate_lists_and_own_in_types, both operand forms: starting
+    from an empty stack they reach no panic site - none of the operand-count assertions, no split_at out of range,
+    no assert!(stack.is_empty()) - and end with an empty stack. *)
+Theorem C03_deallocate_in_types_indirect_never_panics : forall w types addr s,
+  stack s = [] -> ok_with (deallocate_in_types w types [addr] true) s (fun _ s' => stack s' = []).
+Proof. exact deallocate_in_types_indirect_ok. Qed.
+
+Theorem C03_deallocate_in_types_direct_never_panics : forall w types operands s,
+  Forall (fun t => length (wflat t) <= 16) types -> forallb flags_one_word types = true ->
+  length operands = length (concat (map wflat types)) -> stack s = [] ->
+  ok_with (deallocate_in_types w types operands false) s (fun _ s' => stack s' = []).
+Proof. exact deallocate_in_types_direct_ok. Qed.
+
+Print Assumptions C03_deallocate_in_types_indirect_never_panics.
+Print Assumptions C03_deallocate_in_types_direct_never_panics.
 Print Assumptions C03_lists_cleanup_iff_heap.
 Print Assumptions C03_own_cleanup_iff.
 Print Assumptions C03_post_return_iff_heap.
